@@ -411,6 +411,87 @@ func TestC20(t *testing.T) {
 			ls.secrets = ls.secrets[:460]
 		}
 	}
+	// --- KDC replies that the client refuses (each defect of the C09 catalogue, AS and TGS): the error and the
+	// log lines of Login / GetServiceTicket ---
+	ls.secrets = append(ls.secrets, newSecret("client-password-2", []byte(clientPassword)))
+	for _, tgs := range []bool{false, true} {
+		for _, d := range c09Defects() {
+			if d.asOnly && tgs {
+				continue
+			}
+			rc := baseRep(tgs, 18, "password")
+			d.f(&rc, rng)
+			var lb bytes.Buffer
+			var sk types.EncryptionKey
+			cn := types.PrincipalName{NameType: 1, NameString: []string{c09User}}
+			kdc := startFuncKDC(func(req []byte) []byte {
+				now := time.Now()
+				var a messages.ASReq
+				if a.Unmarshal(req) == nil {
+					rq := kdcReqInfo{cname: a.ReqBody.CName, realm: a.ReqBody.Realm, nonce: a.ReqBody.Nonce, sname: a.ReqBody.SName, addrs: a.ReqBody.Addresses, padata: a.PAData}
+					pas := hintsFor(rc.hints, rc.et, c09Realm, cn)
+					cc := rc
+					if tgs {
+						cc = baseRep(false, rc.et, "password")
+					}
+					key, err := kdcClientKey(cc, cn, pas)
+					if err != nil {
+						return nil
+					}
+					reply, err := mintKDCRepKey(rng, cc, rq, key, pas, now, &sk)
+					if err != nil {
+						return nil
+					}
+					return reply
+				}
+				var tg messages.TGSReq
+				if tg.Unmarshal(req) == nil {
+					rq := kdcReqInfo{cname: tg.ReqBody.CName, realm: tg.ReqBody.Realm, nonce: tg.ReqBody.Nonce, sname: tg.ReqBody.SName, addrs: tg.ReqBody.Addresses}
+					reply, err := mintKDCRep(rng, rc, rq, sk, nil, now)
+					if err != nil {
+						return nil
+					}
+					return reply
+				}
+				return nil
+			})
+			cl2 := client.NewWithPassword(c09User, c09Realm, clientPassword, c09Config(rc.skew, kdc.port), client.DisablePAFXFAST(true), client.Logger(log.New(&lb, "", 0)))
+			Protect(func() {
+				err := cl2.Login()
+				ls.err("Client.Login(refused reply:"+d.name+")", err)
+				if err == nil && tgs {
+					_, _, e := cl2.GetServiceTicket("HTTP/host.test.gokrb5")
+					ls.err("Client.GetServiceTicket(refused reply:"+d.name+")", e)
+				}
+				var w bytes.Buffer
+				ls.err("Client.Diagnostics(after refused reply)", cl2.Diagnostics(&w))
+				ls.check("Client.Diagnostics(after refused reply)", w.Bytes())
+			})
+			cl2.Destroy()
+			kdc.close()
+			ls.check("client log (refused reply:"+d.name+")", lb.Bytes())
+		}
+	}
+	// --- Diagnostics of a keytab client whose keytab holds two different keys for one principal, key version
+	// and enctype (two exports merged) ---
+	{
+		kt2 := keytab.New()
+		kt2.AddEntry(c09User, c09Realm, "first-"+password, time.Unix(1600000000, 0), 3, 18)
+		kt2.AddEntry(c09User, c09Realm, "second-"+password, time.Unix(1600000100, 0), 3, 18)
+		kt2.AddEntry(c09User, c09Realm, "third-"+password, time.Unix(1600000100, 0), 3, 17)
+		for i, e := range kt2.Entries {
+			ls.secrets = append(ls.secrets, newSecret(fmt.Sprintf("conflicting-keytab-key-%d", i), append([]byte{}, e.Key.KeyValue...)))
+		}
+		cl3 := client.NewWithKeytab(c09User, c09Realm, kt2, c09Config(5*time.Minute, 0), client.DisablePAFXFAST(true))
+		var w bytes.Buffer
+		Protect(func() {
+			ls.err("Client.Diagnostics(conflicting keytab entries)", cl3.Diagnostics(&w))
+			ls.check("Client.Diagnostics(conflicting keytab entries)", w.Bytes())
+			w.Reset()
+			cl3.Print(&w)
+			ls.check("Client.Print(conflicting keytab entries)", w.Bytes())
+		})
+	}
 	// --- HTTP Basic authenticator: the header value holds the password; it may arrive in any of the encodings
 	// clients produce (padding left out, URL-safe alphabet, white space, junk after it) ---
 	{
